@@ -18,7 +18,8 @@ from ..core import SubCheck
 
 PROPERTY = "C01"
 RULE = (
-    "Hypothesis draws (rule class out of all 26 in onedgrid.py, n from the class's admissible set mixing 2..12 / 13..64 / "
+    "all-sizes-default-parameters: complete enumeration of (rule class, n) with default parameters for n = 2..40 (quick) / "
+    "2..257 (thorough, exhaustive up to the class caps). rules: Hypothesis draws (rule class out of all 26 in onedgrid.py, n from the class's admissible set mixing 2..12 / 13..64 / "
     "65..257 and both parities, extra parameters alpha, delta, h, d, rho, inner quadrature); inadmissible (n, parameter) "
     "values form a separate class that must raise ValueError/TypeError. Inside a case EVERY basis degree k up to the nominal "
     "one is integrated. non-trivial = n odd, or n >= 20, or a non-default extra parameter; distinct = distinct (class, n, params)"
@@ -543,9 +544,37 @@ def selftest():
     assert ok
 
 
+def _enumerated(nmax):
+    """Every (rule class, n) with default parameters, n = 2..nmax (class caps and parity respected): no 'magic n' can
+    hide from a random draw."""
+    caps = {"GaussLegendre": 100, "GaussLaguerre": 150, "RectangleRuleSineEndPoints": 129, "TrefethenCC": 129, "TrefethenGC2": 129,
+            "TrefethenStripCC": 65, "TrefethenStripGC2": 65, "ExpSinh": 13}
+    rules = list(INTERP) + ["GaussChebyshev", "GaussChebyshevType2", "GaussChebyshevLobatto", "UniformInteger", "GaussLaguerre",
+                            "RectangleRuleSineEndPoints", "TrefethenCC", "TrefethenGC2", "TrefethenStripCC", "TrefethenStripGC2"] + DE_RULES
+    out = []
+    for r in rules:
+        for n in range(2, min(nmax, caps.get(r, nmax)) + 1):
+            if r in ODD_ONLY and n % 2 == 0:
+                continue
+            c = {"rule": r, "n": n, "dseed": n}
+            if r == "GaussLaguerre":
+                c["alpha"] = 0
+            if r == "TanhSinh":
+                c["delta"] = 0.1
+            if r in DE_RULES[1:]:
+                c["h"] = DEFAULT_H.get(r, 0.1)
+            if r in ("TrefethenCC", "TrefethenGC2"):
+                c["d"] = 9
+            if r in ("TrefethenStripCC", "TrefethenStripGC2"):
+                c["rho"] = 1.1
+            out.append(c)
+    return out
+
+
 def subchecks(tier, seed):
     quick = tier == "quick"
     return [
+        SubCheck("all-sizes-default-parameters", body, cases=_enumerated(40 if quick else 257), exhaustive=not quick, shards=32),
         SubCheck("rules", body, strategy=_case_strategy(), examples=2500 if quick else 40000, cases=PINNED, shards=16 if quick else 64,
                  shrink=True),
         SubCheck("inadmissible", body_invalid, strategy=_invalid_strategy(), examples=400 if quick else 3000, shards=4),
